@@ -64,6 +64,13 @@ func genVC(sel bool) func(r *sim.RNG, p *sim.Plan, tier string) {
 		} else if r.Bool(0.25) {
 			p.Cfg["mute_mask"] = 1 << uint(r.Intn(miners))
 		}
+		// previous set smaller than the candidate set: the first k miners are the previous magic block,
+		// the others newcomers with MORE stake, and more newcomers than slots
+		prevK := 0
+		if miners >= 4 && r.Bool(0.4) {
+			prevK = r.Range(1, miners-2)
+			p.Cfg["prev_subset"] = int64(prevK)
+		}
 		var steps []sim.Step
 		// settings of the miner contract through the real update_settings
 		minN := r.Range(1, miners)
@@ -77,6 +84,10 @@ func genVC(sel bool) func(r *sim.RNG, p *sim.Plan, tier string) {
 		if honest && !sel {
 			minN = r.Range(1, miners)
 			maxN = r.Range(max(minN, (miners+1)/2), miners+1)
+		}
+		if prevK > 0 {
+			maxN = r.Range(1, miners-prevK)
+			minN = r.Range(1, maxN)
 		}
 		pct := []string{"0.5", "0.66", "0.75", "1"}
 		xp := []string{"0.3", "0.5", "0.7", "1"}
@@ -107,6 +118,14 @@ func genVC(sel bool) func(r *sim.RNG, p *sim.Plan, tier string) {
 		}
 		for i := 0; i < ns; i++ {
 			steps = append(steps, sim.Step{Op: "vc.stake", A: r.Intn(3), I: []int64{int64(r.Intn(2)), int64(r.Intn(8)), int64([]int{1, 1, 2, 2, 3, 5}[r.Intn(6)])}})
+		}
+		if prevK > 0 {
+			for i := prevK; i < miners; i++ {
+				steps = append(steps, sim.Step{Op: "vc.stake", A: r.Intn(3), I: []int64{0, int64(i), int64([]int{2, 3, 3, 5}[r.Intn(4)])}})
+			}
+			if r.Bool(0.5) {
+				steps = append(steps, sim.Step{Op: "vc.stake", A: r.Intn(3), I: []int64{0, int64(r.Intn(prevK)), 1}})
+			}
 		}
 		cycles := 1
 		if r.Bool(0.3) {
@@ -670,7 +689,7 @@ func (oc *oracle39) AfterTxn(w *ledger.World, bc *ledger.BlockCtx, o *ledger.Out
 // cut-off stake is shared by more candidates than slots are left, the fork is
 // repeated under S different round seeds of the latest finalized magic block
 // (the only seed the selection uses), S chosen so that (slots/ties)^S < 1e-12.
-func (oc *oracle39) sweep(from string, round int64) {
+func (oc *oracle39) sweep(from string, round int64) (abort bool) {
 	w, r := oc.w, oc.r
 	raw := fmt.Sprintf(`{"round":%d}`, round)
 	lf := w.C.GetLatestFinalizedMagicBlock(context.Background())
@@ -713,7 +732,35 @@ func (oc *oracle39) sweep(from string, round int64) {
 			}
 			return uint64(mn.TotalStaked)
 		}
-		for si, s := range selectionsOf(w, pre, first.mb, stake) {
+		// identical inputs, identical selection: the same payFees on further forks of the same state with
+		// the same latest finalized magic block (same seed) must select the same sets. More repetitions when
+		// the cut-off stake is tied (a dependence on map iteration order shows with probability >= 1/8 each).
+		sels := selectionsOf(w, pre, first.mb, stake)
+		reps := 3
+		for _, s := range sels {
+			if ties, slots := checkSelection(s, func(string, string) {}); len(ties) > slots && slots > 0 {
+				reps = 64
+			}
+		}
+		for i := 0; i < reps && !abort; i++ {
+			v, ok := run(0, false)
+			if !ok || v.mb == nil {
+				continue
+			}
+			again := selectionsOf(w, pre, v.mb, stake)
+			for si, s := range sels {
+				if si < len(again) && fmt.Sprint(sortedKeys(again[si].result)) != fmt.Sprint(sortedKeys(s.result)) {
+					oc.violate("C39/"+s.kind+"/same-inputs-different-selection",
+						fmt.Sprintf("two executions of the same payFees on the same state (same seed, same previous set) selected different %s", s.kind))
+					abort = true
+				}
+			}
+		}
+		w.Tr.Probe("repeat_execution_compared")
+		if abort {
+			return
+		}
+		for si, s := range sels {
 			ties, slots := checkSelection(s, func(string, string) {})
 			if len(ties) <= slots || slots <= 0 {
 				continue
@@ -767,6 +814,52 @@ func (oc *oracle39) sweep(from string, round int64) {
 			}
 		}
 	})
+	return abort
+}
+
+// installPrevSet (cfg prev_subset = k > 0) makes the chain's latest finalized
+// magic block -- the "previous set" of the view change -- a magic block that
+// holds only the first k miners of the current one (all sharders): the state
+// between applying a larger magic block and finalizing it. The other miners
+// are newcomers for the selection. Uses the chain's own exported setter.
+func installPrevSet(w *ledger.World, r *ledger.Runner) *block.MagicBlock {
+	k := int(r.Plan.CfgInt("prev_subset", 0))
+	if k <= 0 || k >= len(w.Miners) {
+		return nil
+	}
+	mk := func(src *ledger.Node, t node.NodeType) *node.Node {
+		n := node.Provider()
+		n.Type = t
+		n.Host, n.N2NHost, n.Port, n.Description = src.N.Host, src.N.N2NHost, src.N.Port, src.N.Description
+		n.SetSignatureSchemeType("bls0chain")
+		if err := n.SetPublicKey(src.PK); err != nil {
+			panic(err)
+		}
+		return n
+	}
+	mb := block.NewMagicBlock()
+	mb.Miners = node.NewPool(node.NodeTypeMiner)
+	mb.Sharders = node.NewPool(node.NodeTypeSharder)
+	for _, m := range w.Miners[:k] {
+		if err := mb.Miners.AddNode(mk(m, node.NodeTypeMiner)); err != nil {
+			panic(err)
+		}
+	}
+	for _, s := range w.Sharders {
+		if err := mb.Sharders.AddNode(mk(s, node.NodeTypeSharder)); err != nil {
+			panic(err)
+		}
+	}
+	mb.T, mb.N, mb.K = (k*2)/3+1, k, k
+	mb.MagicBlockNumber = 1
+	mb.Hash = mb.GetHash()
+	nb := block.NewBlock(w.C.GetKey(), 0)
+	nb.MagicBlock = mb
+	nb.Hash = encryption.Hash(fmt.Sprintf("previous-set-%d", w.Seed))
+	nb.SetRoundRandomSeed(int64(sim.Hash64(fmt.Sprintf("prev-rrs-%d", w.Seed)) >> 1))
+	w.C.SetLatestFinalizedMagicBlock(nb)
+	w.Tr.Probe("previous_set_is_a_subset")
+	return mb
 }
 
 // ---- scenarios ------------------------------------------------------------------------------------
@@ -786,6 +879,9 @@ func setupVC(prop string) func(w *ledger.World, r *ledger.Runner) []ledger.Obser
 			minersc.PhaseRounds[minersc.Phase(i)] = p.CfgInt(k, 2)
 		}
 		mb := w.C.GetCurrentMagicBlock()
+		if pm := installPrevSet(w, r); pm != nil {
+			mb = pm
+		}
 		oc := &oracle38{prop: prop, prevMB: mb}
 		agentReg[r].oc = oc
 		obs := []ledger.Observer{oc}
